@@ -476,6 +476,19 @@ pub fn pipe(sh: &Shared, e: &Sexp) -> Option<Ob> {
     }
     ("contains", 2) => last()?.contains(parse_data(&a[0])?).map(V::boolean),
     ("default_if_empty", 2) => last()?.default_if_empty(parse_data(&a[0])?),
+    // utils::ready_set_go: subscribe first, then run the action (here: calls on hot sources of the case)
+    ("rsg", 2) => {
+      let acts = a[0].list()?.iter().map(|x| subject_action(sh, x)).collect::<Option<Vec<Action>>>()?;
+      let o = pipe(sh, &a[1])?;
+      utils::ready_set_go(
+        move || {
+          for act in acts.iter() {
+            act(0);
+          }
+        },
+        o,
+      )
+    }
     ("ignore_elements", 1) => last()?.ignore_elements(),
     // time stamps / durations are not modelled: the stamp is dropped, a duration becomes `()`
     ("timestamp", 1) => last()?.timestamp().map(|(_, x)| x),
